@@ -129,6 +129,25 @@ func shutdownBody(g lstore.Geometry, uploads [][]string, lateUpload bool) func()
 			}
 			vsched.Mark()
 		}
+		// The restarted store keeps serving them while it accepts further uploads: space holding an acknowledged
+		// object is not handed out again (only rotation, visible as the index no longer resolving it, ends that).
+		if len(acks) > 0 {
+			rs := s.Restart(g)
+			for i, c := range []string{"zzz", "yyyy"} {
+				z := lstore.CASObj(fmt.Sprintf("Z%d", i), inst(g), []byte(c))
+				if err := rs.PutOK(z.Digest, z.Content); err != nil {
+					break
+				}
+				for _, a := range acks {
+					if !rs.Held(a.Obj.Digest) {
+						continue
+					}
+					if ok, err := rs.Served(a.Obj.Digest, a.Obj.Content); err != nil || !ok {
+						failf("acknowledged-upload-overwritten-after-restart", "Put(%s) was acknowledged before the shutdown; after the restart and %d further upload(s) the store still resolves the object but does not serve its bytes (err=%v)", a.Obj.Name, i+1, err)
+					}
+				}
+			}
+		}
 		if v := s.CheckMonitors(); len(v) > 0 {
 			failf("monitor", "%s", v[0])
 		}
